@@ -145,6 +145,62 @@ pub fn eval_byte(ctx: &mut Ctx, eci: u32, payload: &[u8], carrier: &str) {
     }
 }
 
+/// default interpretation (no ECI) and ECI 3, optionally behind a Macro codeword: Latin-1 per ISO 8859-1
+pub fn eval_default(ctx: &mut Ctx, macro_cw: u8, eci3: bool, payload: &[u8], carrier: &str) {
+    ctx.eval();
+    let case = || Case::new("eci_default").with("macro", macro_cw).with("eci3", eci3 as u8).bytes("payload", payload).with("carrier", carrier);
+    let mut cw: Vec<u8> = Vec::new();
+    if macro_cw != 0 {
+        cw.push(macro_cw);
+    }
+    if eci3 {
+        cw.extend_from_slice(&[241, 4]);
+    }
+    match carrier {
+        "ascii" => {
+            for b in payload {
+                if *b < 128 {
+                    cw.push(*b + 1);
+                } else {
+                    cw.push(235);
+                    cw.push(*b - 127);
+                }
+            }
+        }
+        _ => {
+            cw.push(231);
+            let start = cw.len();
+            cw.push(payload.len() as u8);
+            cw.extend_from_slice(payload);
+            for i in start..cw.len() {
+                cw[i] = randomize_255(cw[i], i + 1);
+            }
+        }
+    }
+    let body = charset::decode(3, payload);
+    let want: Option<String> = body.map(|b| match macro_cw {
+        236 => format!("[)>\u{1e}05\u{1d}{}\u{1e}\u{4}", b),
+        237 => format!("[)>\u{1e}06\u{1d}{}\u{1e}\u{4}", b),
+        _ => b,
+    });
+    match guard(|| decode_str(&cw)) {
+        Err(p) => ctx.violation("decode_str_panic", &case(), p),
+        Ok(Ok(s)) => match &want {
+            Some(w) if *w == s => {
+                ctx.count("default.char_ok");
+                ctx.nontrivial(hash64(case().flat().as_bytes()));
+            }
+            Some(w) => ctx.violation("wrong_character", &case(), format!("decoded {:?}, ISO 8859-1 says {:?}", s, w)),
+            None => ctx.violation("undefined_byte_decoded", &case(), format!("decoded {:?} for a control byte under the default interpretation", s)),
+        },
+        Ok(Err(DataDecodingError::CharsetError)) => match &want {
+            None => ctx.count("default.charset_error_ok"),
+            Some(w) => ctx.violation("defined_byte_rejected", &case(), format!("CharsetError, expected {:?}", w)),
+        },
+        Ok(Err(e)) => ctx.violation("unexpected_error", &case(), format!("{:?}", e)),
+    }
+}
+
 pub fn run(ctx: &mut Ctx) {
     // all 1,000,000 ECI numbers
     let mut n = ctx.shard as u32;
@@ -190,6 +246,38 @@ pub fn run(ctx: &mut Ctx) {
         }
     }
     ctx.exhaustive.insert("256_bytes_x_5_character_sets_x_2_carriers".into(), true);
+    // default interpretation / ECI 3, with and without a Macro codeword in front
+    for b in 0..=255u8 {
+        if !ctx.mine(b as usize) {
+            continue;
+        }
+        for macro_cw in [0u8, 236, 237] {
+            for eci3 in [false, true] {
+                for carrier in ["ascii", "base256"] {
+                    eval_default(ctx, macro_cw, eci3, &[b], carrier);
+                    eval_default(ctx, macro_cw, eci3, &[0xC3, b, b'z'], carrier);
+                }
+            }
+        }
+    }
+    // ECI 26: every BMP scalar value (and a sample of astral ones) as a complete payload and as a prefix
+    let mut u = ctx.shard as u32;
+    while u <= 0x2FFFF {
+        if let Some(ch) = char::from_u32(u) {
+            let mut buf = [0u8; 4];
+            let enc = ch.encode_utf8(&mut buf).as_bytes().to_vec();
+            if u <= 0xFFFF || u % 13 == 0 {
+                let p1 = enc.clone();
+                let mut p2 = enc.clone();
+                p2.push(b'a');
+                // Base256 fields carry at most 249 bytes with a one-byte length: fine here
+                eval_byte(ctx, 26, &p1, "base256");
+                eval_byte(ctx, 26, &p2, "base256");
+            }
+        }
+        u += ctx.nshards as u32;
+    }
+    ctx.exhaustive.insert("eci26_every_bmp_scalar_as_payload_and_prefix".into(), true);
     // UTF-8 validity: all 2-byte sequences; sampled 3-4 byte incl. overlongs and surrogates
     for a in 0..=255u8 {
         if !ctx.mine(a as usize) {
@@ -223,6 +311,7 @@ pub fn replay(ctx: &mut Ctx, case: &Case) {
     match case.kind.as_str() {
         "eci_number" => eval_number(ctx, case.get_u64("n") as u32),
         "eci_designator" => eval_designator(ctx, &case.get_bytes("d")),
+        "eci_default" => eval_default(ctx, case.get_usize("macro") as u8, case.get_bool("eci3"), &case.get_bytes("payload"), case.get("carrier").unwrap_or("ascii")),
         "eci_bytes" => eval_byte(ctx, case.get_u64("eci") as u32, &case.get_bytes("payload"), case.get("carrier").unwrap_or("ascii")),
         _ => ctx.harness_error("unknown case kind"),
     }
